@@ -9,6 +9,7 @@ NOTES = ("Model-based verification with explicit TLA+ specifications (spec/*.tla
 DEFAULT_NA = "check not built yet in this round (planned in DESIGN.md section 6); not claimed until its quick and thorough commands pass on the unchanged tree"
 NOT_APPLICABLE = {}
 
+
 _SYNC_NOTE = ("Trusted: TLC; the harness stream (hstream) and snapshotter (own lstat/readlink/llistxattr code); ext4 as root; "
               "generators' domain (no sockets, majors < 4096, regular-file hard links only); bounded universes and seeded random cases.")
 
@@ -177,6 +178,17 @@ CLAIMED = {
         design_ref="DESIGN.md section 6 C19",
         note=_SYNC_NOTE + " The listing is decoded by the harness with the vtproto decoder and compared via a canonical stat hash.",
         technique="TLA+ property layer (Projection / MetaClauses in SyncTrace, SyncOutcome) + TLC trace validation of real metadata-only transfers"),
+    "C20": dict(
+        text="TLC enumerates (spec/WireGen.tla) the value-class product of the Stat/Packet fields and all token strings of a protobuf wire-format "
+             "grammar up to the bound; the driver pushes every class vector through the four codec directions {vtproto, protobuf-go} x {encode, "
+             "decode} and every token string (and its one-byte truncation) through both decoders under a panic and allocation monitor; message "
+             "sequences incl. empty packets and packets larger than the pooled buffer are written and read back through util.NewProtoStream "
+             "under fragmentations from 1-byte reads to whole-stream, re-checking earlier packets after later reads. TLC judges the recorded "
+             "results (WireTrace.tla) and model-checks the reader algorithm with its pooled buffer for all sequences and fragmentations of the "
+             "bounded model (FramingMC.tla, with two sanity configurations that must be rejected).",
+        design_ref="DESIGN.md section 6 C20 and section 7",
+        note="Trusted: TLC; google.golang.org/protobuf as the generic runtime; proto.Equal as value equality. 'Arbitrary bytes' is covered only on the grammar-bounded family; no coverage-guided fuzzing (technique family rule).",
+        technique="TLC-enumerated input classes and token grammar (WireGen) + TLA+ framing reader model (FramingMC) + TLC trace validation of the real codecs and stream (WireTrace)"),
     "C12": dict(
         text="TLC proves, for every change sequence up to the bound over a hostile path alphabet, that the transcribed Validator "
              "(alg) accepts exactly what the property-layer ValidStream accepts and rejects at the same index, and that the "
